@@ -2,6 +2,7 @@ import Lean.Data.Json
 import DEvo.Mut.Env
 import DEvo.Sig.Diff
 import DEvo.Ser.Sig
+import DEvo.Ser.Py
 
 /-! JSON codecs of the driver protocol (not part of the verified library). -/
 
@@ -220,6 +221,30 @@ partial def vlJ : VL → List Json
   | .nil => [] | .cons v t => vJ v :: vlJ t
 partial def vdJ : VD → List Json
   | .nil => [] | .cons k v t => Json.arr #[Json.str k, vJ v] :: vdJ t
+end
+
+open DEvo.Ser in
+mutual
+/-- Python expression trees, in the shape `tools/vlib/pyast.py` gives to `ast.parse` output -/
+partial def pyJ : Py → Json
+  | .lit .none => Json.mkObj [("k", "lit"), ("v", Json.null)]
+  | .lit (.bool b) => Json.mkObj [("k", "lit"), ("v", b)]
+  | .lit (.int i) => Json.mkObj [("k", "lit"), ("v", toJson i)]
+  | .lit (.str s) => Json.mkObj [("k", "lit"), ("v", s)]
+  | .enumRef ty m => Json.mkObj [("k", "enum"), ("type", ty), ("member", m)]
+  | .call p a kw => Json.mkObj [("k", "call"), ("path", p), ("args", Json.arr (pylJ a).toArray),
+      ("kwargs", Json.arr (pydJ kw).toArray)]
+  | .list xs => Json.mkObj [("k", "list"), ("v", Json.arr (pylJ xs).toArray)]
+  | .tuple xs => Json.mkObj [("k", "tuple"), ("v", Json.arr (pylJ xs).toArray)]
+  | .dict kvs => Json.mkObj [("k", "dict"), ("v", Json.arr (pydJ kvs).toArray)]
+  | .inv e => Json.mkObj [("k", "inv"), ("e", pyJ e)]
+  | .bin op l r => Json.mkObj [("k", "bin"), ("op", op.trimAscii.toString), ("l", pyJ l), ("r", pyJ r)]
+  | .paren e => Json.mkObj [("k", "paren"), ("e", pyJ e)]
+  | .junk t => Json.mkObj [("k", "junk"), ("text", t)]
+partial def pylJ : PyL → List Json
+  | .nil => [] | .cons e t => pyJ e :: pylJ t
+partial def pydJ : PyD → List Json
+  | .nil => [] | .cons k e t => Json.arr #[Json.str k, pyJ e] :: pydJ t
 end
 
 open DEvo.Ser in
